@@ -436,8 +436,18 @@ Lemma tv_mk_and_true J l : tv J (mk_and l) = true <-> forall a, In a l -> tv J a
 Proof. rewrite tv_mk_and. apply forallb_forall. Qed.
 
 (* the initial state of a new Ackermannizer satisfies the invariant *)
+Lemma Inv2_init0 (Q : term -> Prop) names0 guess names : incl names0 names -> Inv2 Q names0 (init_astate guess names).
+Proof. intros H. constructor; cbn; try (intros; contradiction); [constructor | exact H]. Qed.
 Lemma Inv2_init (Q : term -> Prop) guess names : Inv2 Q names (init_astate guess names).
-Proof. constructor; cbn; try (intros; contradiction); [constructor | apply incl_refl]. Qed.
+Proof. apply Inv2_init0, incl_refl. Qed.
+
+(* a call from any state satisfying the invariant (a reused object) *)
+Lemma call_spec (Q : term -> Prop) (Qsub : forall o args, Q (T o args) -> Forall Q args) names0 f st : Q f -> Inv2 Q names0 st ->
+  let r := ack_walk f st in
+  Inv2 Q names0 (snd r) /\ covered (terms (snd r)) f = true /\ fst r = psub (terms (snd r)) f.
+Proof.
+  intros Hq Hi. destruct (ack_walk_spec Q Qsub names0 f Hq _ Hi) as (A & _ & B & C). auto.
+Qed.
 
 Lemma run_spec (Q : term -> Prop) (Qsub : forall o args, Q (T o args) -> Forall Q args) f guess names : Q f ->
   let r := ack_walk f (init_astate guess names) in
@@ -604,17 +614,21 @@ Qed.
 (* C11, soundness of Ackermannization: an interpretation J (well-sorted: [wfi], i.e. wf_interp)
    satisfying the result yields one that satisfies the input, differing from J only in the
    interpretation of function symbols *)
+Theorem ack_sound_reuse f st names0 J : Inv2 (fun t => is_qf t = true) names0 st -> is_qf f = true -> wfi J ->
+  holds J (fst (ackermannize f st)) ->
+  exists I, isym I = isym J /\ rdiv0 I = rdiv0 J /\ idiv0 I = idiv0 J /\ holds I f.
+Proof.
+  intros Hi Hq Hwf H. destruct (ack_result_holds _ _ _ H) as [Hsb Himps].
+  destruct (call_spec (fun t => is_qf t = true) qf_sub names0 f st Hq Hi) as (Hinv & Hcov & Hres).
+  set (st' := snd (ack_walk f st)) in *.
+  exists (funI J (terms st')). repeat split.
+  unfold holds. rewrite (funI_eval J (terms st') st' eq_refl names0 Hinv Hwf Himps f Hcov Hq).
+  rewrite <- Hres. exact Hsb.
+Qed.
 Theorem ack_sound f guess names J : is_qf f = true -> wfi J ->
   holds J (fst (ackermannize f (init_astate guess names))) ->
   exists I, isym I = isym J /\ rdiv0 I = rdiv0 J /\ idiv0 I = idiv0 J /\ holds I f.
-Proof.
-  intros Hq Hwf H. destruct (ack_result_holds _ _ _ H) as [Hsb Himps].
-  destruct (run_spec (fun t => is_qf t = true) qf_sub f guess names Hq) as (Hinv & Hcov & Hres).
-  set (st' := snd (ack_walk f (init_astate guess names))) in *.
-  exists (funI J (terms st')). repeat split.
-  unfold holds. rewrite (funI_eval J (terms st') st' eq_refl names Hinv Hwf Himps f Hcov Hq).
-  rewrite <- Hres. exact Hsb.
-Qed.
+Proof. apply (ack_sound_reuse f (init_astate guess names) names J), Inv2_init. Qed.
 
 (* ================================================================= ack_complete *)
 Section Complete.
@@ -792,17 +806,17 @@ Definition ack_constants (st : astate) : list string := map (fun p => cname (snd
    values) and well-typed ([tc f = Some ty]); I is well-sorted ([wfi], equivalent to
    Sem.wf_interp); the manager knows f's symbols.  They are used for one thing only: an
    argument of sort Bool is compared with <->, which identifies values only if they are Booleans. *)
-Theorem ack_complete f guess names I :
+Theorem ack_complete_reuse f st names I : Inv2 (Qc names) names st ->
   is_qf f = true -> okt f = true -> (exists ty, tc f = Some ty) -> incl (symnames f) names -> wfi I ->
   holds I f ->
-  let r := ackermannize f (init_astate guess names) in
+  let r := ackermannize f st in
   exists I', agrees_off (ack_constants (snd r)) I I' /\ holds I' (fst r) /\
              (forall n, In n (ack_constants (snd r)) -> ~ In n names).
 Proof.
-  intros Hq Hok Hty Hs Hwf Hf.
+  intros Hi Hq Hok Hty Hs Hwf Hf.
   assert (HQ : Qc names f) by (split; [|split; [|split]]; auto).
-  destruct (run_spec (Qc names) (Qc_sub names) f guess names HQ) as (Hinv & Hcov & Hres).
-  unfold ackermannize. destruct (ack_walk f (init_astate guess names)) as [sb st'] eqn:W. cbn [fst snd] in *.
+  destruct (call_spec (Qc names) (Qc_sub names) names f st HQ Hi) as (Hinv & Hcov & Hres).
+  unfold ackermannize. destruct (ack_walk f st) as [sb st'] eqn:W. cbn [fst snd] in *.
   assert (R : snd (match implications st' with [] => (sb, st') | t :: l => (T OAnd [mk_and (t :: l); sb], st') end) = st')
     by (destruct (implications st'); reflexivity).
   cbn zeta. rewrite R. exists (extI I (terms st')). split; [|split].
@@ -820,6 +834,14 @@ Proof.
   - intros n Hn. unfold ack_constants in Hn. apply in_map_iff in Hn. destruct Hn as ([app c] & <- & Hin).
     destruct (i_keys _ _ _ Hinv _ _ Hin) as (? & ? & ? & nm & _ & -> & Hnm & _). exact Hnm.
 Qed.
+Theorem ack_complete f guess names I :
+  is_qf f = true -> okt f = true -> (exists ty, tc f = Some ty) -> incl (symnames f) names -> wfi I ->
+  holds I f ->
+  let r := ackermannize f (init_astate guess names) in
+  exists I', agrees_off (ack_constants (snd r)) I I' /\ holds I' (fst r) /\
+             (forall n, In n (ack_constants (snd r)) -> ~ In n names).
+Proof. apply (ack_complete_reuse f (init_astate guess names) names I), Inv2_init. Qed.
+
 
 (* the hypotheses are satisfiable by a formula with nested applications:
    f(f(x) + 1) = x  under  f := fun _ => 0, x := 0 *)
@@ -850,3 +872,77 @@ Corollary ack_sound_wf f guess names J : is_qf f = true -> wf_interp J ->
   holds J (fst (ackermannize f (init_astate guess names))) ->
   exists I, isym I = isym J /\ rdiv0 I = rdiv0 J /\ idiv0 I = idiv0 J /\ holds I f.
 Proof. intros Hq Hwf. apply ack_sound; auto. now apply wf_interp_wfi. Qed.
+
+(* ================================================================= reused objects: histories *)
+(* Any sequence of do_ackermannization calls on ONE Ackermannizer (its _terms_dict / _funs_to_args
+   persist), the manager possibly gaining symbols between the calls.  Every call of a history
+   satisfies the single-call theorems: the implications about applications met in EARLIER
+   formulas that a later result also contains are consequences of functional consistency, and
+   their constants are otherwise unconstrained. *)
+Lemma ackermannize_state f st : snd (ackermannize f st) = snd (ack_walk f st).
+Proof. unfold ackermannize. destruct (ack_walk f st) as [sb st']. destruct (implications st'); reflexivity. Qed.
+
+Section History.
+  Variable Q : term -> Prop.
+  Hypothesis Qsub : forall o args, Q (T o args) -> Forall Q args.
+  Variable names0 : list string.       (* symbol names known when the object is created *)
+
+  Inductive ack_hist : astate -> Prop :=
+  | ah_new guess names : incl names0 names -> ack_hist (init_astate guess names)
+  | ah_call st f : ack_hist st -> Q f -> ack_hist (snd (ackermannize f st))
+  | ah_mgr st m' : ack_hist st -> incl (mnames (amgr st)) (mnames m') ->
+                   ack_hist {| amgr := m'; terms := terms st; funs := funs st |}.
+
+  Theorem ack_hist_inv st : ack_hist st -> Inv2 Q names0 st.
+  Proof.
+    induction 1 as [guess names Hn | st f _ IH Hq | st m' _ IH Hm].
+    - now apply Inv2_init0.
+    - rewrite ackermannize_state. apply (call_spec Q Qsub names0 f st Hq IH).
+    - destruct IH as [K N Nm Mo F]. constructor; cbn [terms funs amgr]; auto.
+      + intros app c Hin. apply Hm. eauto.
+      + eapply incl_tran; eauto.
+  Qed.
+End History.
+
+Theorem ack_sound_history names0 st f J :
+  ack_hist (fun t => is_qf t = true) names0 st -> is_qf f = true -> wf_interp J ->
+  holds J (fst (ackermannize f st)) ->
+  exists I, isym I = isym J /\ rdiv0 I = rdiv0 J /\ idiv0 I = idiv0 J /\ holds I f.
+Proof.
+  intros Hh Hq Hwf. apply (ack_sound_reuse f st names0 J); auto.
+  - exact (ack_hist_inv _ qf_sub names0 st Hh).
+  - now apply wf_interp_wfi.
+Qed.
+
+(* every formula of the history is quantifier-free, in the fragment, well-typed and over symbols
+   known when the object was created ([Qc names0]) *)
+Theorem ack_complete_history names0 st f I :
+  ack_hist (Qc names0) names0 st ->
+  is_qf f = true -> okt f = true -> (exists ty, tc f = Some ty) -> incl (symnames f) names0 -> wf_interp I ->
+  holds I f ->
+  let r := ackermannize f st in
+  exists I', agrees_off (ack_constants (snd r)) I I' /\ holds I' (fst r) /\
+             (forall n, In n (ack_constants (snd r)) -> ~ In n names0).
+Proof.
+  intros Hh Hq Hok Hty Hs Hwf. apply (ack_complete_reuse f st names0 I); auto.
+  - exact (ack_hist_inv _ (Qc_sub names0) names0 st Hh).
+  - now apply wf_interp_wfi.
+Qed.
+
+(* a three-call history: f(x) = x ; !(f(y) = x) ; x = y & f(x) != f(y) *)
+Definition fy : term := T (OFunction "f" f_ii) [TSym "y" TInt].
+Definition h1 : term := T OEquals [fx; TSym "x" TInt].
+Definition h2 : term := T ONot [T OEquals [fy; TSym "x" TInt]].
+Definition h3 : term := T OAnd [T OEquals [TSym "x" TInt; TSym "y" TInt]; T ONot [T OEquals [fx; fy]]].
+Definition hist3 : astate :=
+  snd (ackermannize h2 (snd (ackermannize h1 (init_astate 0 ["x"; "y"; "f"]%string)))).
+Example hist3_ok :
+  ack_hist (fun t => is_qf t = true) ["x"; "y"; "f"]%string hist3 /\
+  fst (ackermannize h3 hist3) =
+  T OAnd [T OImplies [T OEquals [TSym "x" TInt; TSym "y" TInt]; T OEquals [TSym "ack0" TInt; TSym "ack1" TInt]]; 
+          T OAnd [T OEquals [TSym "x" TInt; TSym "y" TInt]; T ONot [T OEquals [TSym "ack0" TInt; TSym "ack1" TInt]]]].
+Proof.
+  split.
+  - unfold hist3. apply ah_call; [apply ah_call; [apply ah_new, incl_refl | reflexivity] | reflexivity].
+  - vm_compute. reflexivity.
+Qed.
